@@ -143,7 +143,7 @@ class Universe:
     # ---- records
     def add_record(self, rec: Record):
         self.records[rec.qualname] = rec
-        self.by_short[rec.short] = rec
+        self.by_short.setdefault(rec.short, rec)      # first declaration owns the short name
 
     def alias_of_class(self, qualname):
         for n, al in self.aliases.items():
@@ -152,7 +152,9 @@ class Universe:
         return None
 
     def record_of(self, name):
-        return self.records.get(name) or self.by_short.get(name.split(".")[-1])
+        if name in self.records:
+            return self.records[name]
+        return self.by_short.get(name.split(".")[-1])
 
     def field_ty(self, cls, field):
         """type of field in class (searching declared bases); None if unknown"""
@@ -232,6 +234,10 @@ class Universe:
         if isinstance(n, ast.Name):
             return self._named(n.id)
         if isinstance(n, ast.Attribute):
+            full = ast.unparse(n)
+            if full in self.records:
+                rec = self.records[full]
+                return TRef(rec.qualname) if rec.kind == "ref" else TVal(rec.qualname)
             return self._named(n.attr)
         if isinstance(n, ast.BinOp) and isinstance(n.op, ast.BitOr):
             l, r = self._from_ast(n.left), self._from_ast(n.right)
